@@ -16,6 +16,8 @@ from sim.jitsim import parent as P
 
 STRETCH_CLASSES = ["open:lock", "stat:lock", "stat:failed", "replace:lock", "dlopen:so", "rename:tmp", "codegen:", "spawn-compile-end:obj", "spawn-link:so",
                    "spawn-link-end:so", "open:marker", "write:marker", "close:marker", "chdir:dir"]
+TRIGGER_CLASSES = ["open:lock", "replace:lock", "replace:lock", "close:marker", "open:marker", "spawn-link-end:so",
+                   "spawn-link:so", "codegen:", "unlink:lock", "rename:tmp"]
 FAULT_KINDS = ["kill", "kill", "kill", "interrupt", "codegen-fail", "cc-fail", "cc-fail", "ld-fail",
                "marker-enospc", "lock-eacces", "kill-torn-link", "kill-torn-obj", "stall",
                "torn-write-kill", "load-fail"]
@@ -160,9 +162,14 @@ def gen_scenario(seed, mode, thorough, golden):
                 for _ in range(nreq)]
         procs.append({"name": i, "arrive": round(rng.uniform(0, 3.0), 3) if spread else 0.0,
                       "requests": reqs})
+    # event-triggered arrivals: some processes arrive right behind a state change of the protocol
+    for pr in procs[1:]:
+        if rng.random() < 0.3:
+            pr["after"] = {"event": rng.choice(TRIGGER_CLASSES), "delay": round(rng.choice([0.0, 0.01, 0.1, 0.5]), 3)}
     scn = {"seed": seed, "mode": mode, "procs": procs, "pre": [], "faults": [], "stretch": [], "late": []}
     if rng.random() < 0.4:
-        scn["coarse_mtime"] = True  # a file system with 2 s time stamps
+        # a file system with 2 s time stamps, or NFS with a 60 s attribute cache
+        scn["coarse_mtime"] = rng.choice([2, 60])
     for _ in range(rng.choice([0, 1, 1, 2])):
         scn["stretch"].append({"proc": "holder", "after": rng.choice(STRETCH_CLASSES),
                                "dur": round(rng.uniform(0.3, 1.5), 3)})
@@ -280,6 +287,23 @@ def sweep_scenarios(golden):
              "late": [{"name": "late0", "req": name, "timeout": 2}],
              "faults": [{"kind": k1, "proc": 0}], "sweep": f"failure-with-waiters/{k1}"}
         out.append(s)
+    # a failing builder and newcomers that arrive right behind its release of the lock (and one
+    # behind the first newcomer's own lock acquisition): whatever the failure handling still does
+    # after the release must not touch the successor's lock
+    for k1 in ("codegen-fail", "cc-fail", "ld-fail"):
+        for d1 in (0.0, 0.2):
+            s = {"seed": 17, "mode": "C15", "pre": [],
+                 "stretch": [{"proc": "holder", "after": "replace:lock", "dur": 1.0}],
+                 "procs": [{"name": 0, "arrive": 0.0, "requests": [{"req": name, "timeout": 3}]},
+                           {"name": 1, "requests": [{"req": name, "timeout": 3}],
+                            "after": {"event": "replace:lock", "delay": d1}},
+                           {"name": 2, "requests": [{"req": name, "timeout": 3}],
+                            "after": {"event": "replace:lock", "delay": 1.2}},
+                           {"name": 3, "requests": [{"req": name, "timeout": 3}],
+                            "after": {"event": "replace:lock", "delay": 1.4}}],
+                 "late": [{"name": "late0", "req": name, "timeout": 2}],
+                 "faults": [{"kind": k1, "proc": 0}], "sweep": f"newcomers-behind-release/{k1}/{d1}"}
+            out.append(s)
     return out
 
 
@@ -354,6 +378,10 @@ def _transforms(scn):
             s = copy.deepcopy(scn)
             s["procs"][i]["arrive"] = 0.0
             yield f"arrive 0 for proc {p['name']}", s
+        if p.get("after"):
+            s = copy.deepcopy(scn)
+            del s["procs"][i]["after"]
+            yield f"untriggered arrival for proc {p['name']}", s
         for j, rq in enumerate(p["requests"]):
             if rq["timeout"] > 1:
                 s = copy.deepcopy(scn)
